@@ -55,7 +55,7 @@ def matcher_path_arg(f, call):
 
 
 def run(res, tier):
-    fx = common.load_units(res, ['reflector/StorageReflectSession.cpp', 'reflector/DataNode.cpp'], fn_regex=r'^muscle::(StorageReflectSession|DataNode)')
+    fx = common.load_units(res, ['reflector/StorageReflectSession.cpp', 'reflector/DataNode.cpp', 'regex/PathMatcher.cpp'], fn_regex=r'^muscle::(StorageReflectSession|DataNode|PathMatcher)')
     res.functions_analysed = sum(1 for f in fx.funcs.values() if f.full)
     # ---------------------------------------------------------------------------------- NOTIFY-PAIR
     res.rule('NOTIFY-PAIR', 'DataNode: every write of _data is followed by NotifySubscribersThatNodeChanged unless the notify-with session is NULL; PutChild attaches (SetParent => marks are computed) '
@@ -301,6 +301,12 @@ def run(res, tier):
     ok = bool(nc) and bool(loops) and all(any(nc0 in list(l.walk()) for l in loops) for nc0 in nc)
     res.ob('DELIVERY', f.where(), 'NotifySubscribersThatNodeChanged iterates the node\'s subscriber table and calls NodeChanged inside the loop', ok, function=f.q, key='DELIVERY|%s|loop' % f.q,
            message='NotifySubscribersThatNodeChanged no longer visits every subscriber of the modified node')
+    from . import srs_shared as SS
+    from .C05 import match_recheck_rule
+    SS.setfilter_order_rule(res, fx, 'SUBSCRIBE-PAIR')
+    SS.raw_from_ref_rule(res, fx, 'SUBSCRIBE-PAIR')
+    SS.subscribe_traversal_nofilter_rule(res, fx, 'SUBSCRIBE-PAIR')
+    match_recheck_rule(res, fx, 'DELIVERY')       # the initial fetch after a subscription uses the same traversal: conspiring patterns put unsubscribed nodes into the mirror
     res.explanation = ('Static decision of the structural half of subscriber convergence: payload writes, attachment and removal of nodes are each paired with the notification that tells subscribers, in the order '
                        'that keeps the per-node subscriber marks valid while the notification walks them; the subscription table and the per-node reference marks are changed together with opposite, path-identical '
                        'traversals (+1 / -1 / remove-all); a removal is never queued behind a set of the same path in one update. Convergence over histories, filter enter/leave semantics and batching are not decided.')
